@@ -538,13 +538,15 @@ func init() {
 		if abs.IsConst() {
 			return e.goInt(abs.c.BitLen())
 		}
-		if e.IntMode {
-			panic(unsupported{"big.Int.BitLen symbolic in int mode"})
+		nb := x.bits
+		if e.IntMode && nb == 0 {
+			nb = 256
+			e.assume(e.bLt(abs, e.bigConst(pow2(nb))))
 		}
 		res := e.goInt(0)
-		for i := 1; i <= x.bits; i++ {
+		for i := 1; i <= nb; i++ {
 			// abs >= 2^(i-1)
-			c := e.tt.BvCmp(OBvUle, e.tt.BV(e.BigW, pow2(i-1)), abs)
+			c := e.bLe(e.bigConst(pow2(i-1)), abs)
 			res = e.tt.Ite(c, e.goInt(i), res)
 		}
 		return res
@@ -609,7 +611,26 @@ func (e *Engine) bigBytes(x bigV) Value {
 		return out
 	}
 	if e.IntMode {
-		panic(unsupported{"big.Int.Bytes on symbolic value in int mode"})
+		nb := x.bits
+		if nb == 0 {
+			nb = 256
+			e.assume(e.bLt(abs, e.bigConst(pow2(nb))))
+		}
+		maxB := (nb + 7) / 8
+		var conds []*Term
+		for k := 0; k <= maxB; k++ {
+			c := e.bLt(abs, e.bigConst(pow2(8*k)))
+			if k > 0 {
+				c = e.tt.And(c, e.bLe(e.bigConst(pow2(8*(k-1))), abs))
+			}
+			conds = append(conds, c)
+		}
+		k := e.chooseAmong(conds, "big.Int.Bytes length")
+		out := make([]Value, k)
+		for i := 0; i < k; i++ {
+			out[i] = e.tt.IntBin(OMod, e.tt.IntBin(ODiv, abs, e.tt.Int(pow2(8*(k-1-i)))), e.tt.Inti(256))
+		}
+		return out
 	}
 	maxB := (x.bits + 7) / 8
 	var conds []*Term
